@@ -57,5 +57,93 @@ package drpchttp
 //@ func getCode
 //@   props C13 C14
 //@   requires err != nil
-//@   modifies *
+//@   assumes "reflect: m.Call(nil) returns NumOut() results, and the code has just checked NumOut() == 1"
+//@   site (Value).Call assumeafter [reflect-call] len(ret) == 1
 //@   loop 1 invariant [i] 0 <= i && i <= 100
+
+// ---- grpc-web
+
+// the trailer sanitiser is built once, at package initialisation, from exactly these pairs
+//@ func init
+//@   props C14
+//@   modifies *
+//@   site NewReplacer assert [C14.sanitiser] len(arg0) == 4 && arg0[0] == "\n" && arg0[1] == " " && arg0[2] == "\r" && arg0[3] == " "
+//@ axiom mapsCRLFToSpace(nlSpace) && nlSpace != nil
+
+// framedWrite hands exactly one frame to the writer: flag byte, big-endian 32-bit length, payload.
+//@ func (grpcWebProtocol).framedWrite
+//@   props C14 C13
+//@   requires len(buf) < 4294967296
+//@   modifies *
+//@   site write assert [C14.frame-header] len(arg1) == 5 + len(buf) && arg1[0] == hdr && be32(arg1[1:5]) == uint32(len(buf))
+//@   site write assert [C14.frame-payload] forall i int :: 0 <= i && i < len(buf) ==> arg1[5 + i] == buf[i]
+//@   check [C14.one-write] eventCount("dyn:write") == 1
+
+// MsgSend: a message at or over the limit is rejected before anything is written.
+//@ func (*grpcWebStream).MsgSend
+//@   props C14 C13
+//@   modifies *
+//@   site (grpcWebProtocol).framedWrite assert [C14.size-checked-before-write] len(arg3) < 4194304 && arg2 == 0
+//@   check [C14.at-most-one-frame] eventCount("call:(grpcWebProtocol).framedWrite") <= 1
+
+//@ func (*grpcWebStream).MsgRecv
+//@   props C14 C13
+//@   modifies *
+
+// Finish: grpc-status is "0" exactly when the outcome is success; every trailer value passes through
+// the CR/LF sanitiser, so error text cannot start a new trailer line.
+//@ func (*grpcWebStream).Finish$1
+//@   props C14
+//@   modifies *
+//@   site (*Replacer).Replace assert [C14.sanitised] arg0 == nlSpace && arg1 == v
+//@   ghost entry clean = false
+//@   ghost after:TrimString clean = noCRLF(ret)
+//@   check [C14.no-injection] clean && eventCount("call:(*Buffer).WriteString") == 4
+
+//@ func (*grpcWebStream).Finish
+//@   props C14 C13
+//@   modifies *
+//@   site (*grpcWebStream).Finish$1#1 assert [C14.status-iff-failed] arg0 == "grpc-status" && (err == nil) == (arg1 == "0")
+//@   assumes "the trailer block (status, code, error text) is shorter than 4 GiB"
+//@   site (*Buffer).Bytes assumeafter [trailer-size] len(ret) < 4294967296
+//@   site (grpcWebProtocol).framedWrite assert [C14.trailer-frame] arg2 == 128
+//@   check [C14.trailers] eventCount("call:(grpcWebProtocol).framedWrite") == 1 && (err == nil ==> eventCount("call:(*grpcWebStream).Finish$1") == 1) && (err != nil ==> eventCount("call:(*grpcWebStream).Finish$1") == 3)
+
+// ---- twirp
+
+//@ func setErrorOrEOF
+//@   inline
+
+// exactly one response is kept; after the first send every further send reports the stored error
+//@ func (*twirpStream).MsgSend
+//@   props C14
+//@   modifies *
+//@   check [C14.single-response] old(ts.sendErr) != nil ==> err == old(ts.sendErr) && ts.response == old(ts.response) && eventCount("dyn:marshal") == 0
+//@   check [C14.sticky] ts.sendErr != nil
+
+//@ func (*twirpStream).MsgRecv
+//@   props C14 C13
+//@   requires ts.body != nil
+//@   modifies *
+//@   check [C14.single-request] old(ts.recvErr) != nil ==> err == old(ts.recvErr) && eventCount("call:twirpRead") == 0
+
+// Finish: success writes 200 and the stored response; failure writes a non-zero status and a JSON body.
+//@ func (*twirpStream).Finish
+//@   props C14 C13
+//@   requires ts.rw != nil
+//@   modifies *
+//@   ghost entry code = 0
+//@   ghost call:WriteHeader code = arg1
+//@   check [C14.ok-200]    err == nil ==> code == 200 && eventCount("invoke:Write") == 1 && eventCount("invoke:WriteHeader") == 1
+//@   check [C14.err-status] err != nil ==> code != 0 || eventCount("call:Error") == 1
+
+// ServeHTTP: the protocol is chosen by the exact content type, with "*" as the fallback; the stream is
+// finished exactly once with the handler's result.
+//@ func (wrapper).ServeHTTP
+//@   props C14 C13
+//@   requires req != nil && rw != nil && w.handler != nil && req.URL != nil
+//@   modifies *
+//@   assumes "the protocol table always contains the fallback entry \"*\" (installed by defaultProtocols)"
+//@   site NewStream assume [fallback-present] arg0 != nil
+//@   site NewStream assumeafter [stream] ret != nil
+//@   check [C14.finish-once] eventCount("invoke:Finish") == 1 && eventCount("invoke:HandleRPC") == 1 && eventAfterLast("invoke:HandleRPC", "invoke:Finish")
